@@ -726,6 +726,19 @@ def dupFnErrs (seen : List String) : List PFn → List Err
   | f :: rest =>
     (if seen.contains f.name then [⟨.duplicateFunction, .duplicateDefinition⟩] else []) ++ dupFnErrs (f.name :: seen) rest
 
+/-- a function named like a value that is already in the root scope when the signatures are
+registered (`functionSignature`): imports and builtins there, the host scope in the model (imports
+are outside of it). Such a value would win over the function wherever the name is used. -/
+def fnClashErrs (root : List (String × Ty)) : List PFn → List Err
+  | [] => []
+  | f :: rest =>
+    (if (lookupTy f.name root).isSome then [⟨.nameClash, .duplicateDefinition⟩] else []) ++ fnClashErrs root rest
+
+/-- a global named like a function of the module (`letStatement`, global case: the signatures
+are registered before the globals, whatever the order in the source) -/
+def globalClashErrs (fns : List (String × Ty)) (name : String) : List Err :=
+  if (lookupTy name fns).isSome then [⟨.nameClash, .duplicateDefinition⟩] else []
+
 structure GlobalsRes where
   errs : List Err := []
   vars : List (String × Ty)
@@ -738,7 +751,7 @@ def checkGlobals (fns : List (String × Ty)) (vars : List (String × Ty)) : List
     let Γ : Ctx := { vars := vars, fns := fns, ret := none, inLoop := false }
     let r := letRule Γ g.name g.ann (checkExpr Γ false g.e) true
     let rr := checkGlobals fns r.vars rest
-    { errs := r.errs ++ rr.errs, vars := rr.vars, tys := r.tys ++ rr.tys }
+    { errs := r.errs ++ globalClashErrs fns g.name ++ rr.errs, vars := rr.vars, tys := r.tys ++ rr.tys }
 
 /-- `setCurrentFunc`: `return` statements are checked against the return type of the first
 function registered under the name -/
@@ -776,7 +789,7 @@ structure ProgRes where
 /-- `analyzeModule` for a program of the core language; `needMain`: the host requires `main` -/
 def checkProg (needMain : Bool) (p : PProg) : ProgRes :=
   let fns := p.fns.map fun f => (f.name, fnSig f)
-  let e0 := dupFnErrs [] p.fns
+  let e0 := dupFnErrs [] p.fns ++ fnClashErrs hostScope p.fns
   let g := checkGlobals fns hostScope p.globals
   let f := checkFns fns g.vars p.fns
   let em : List Err :=
